@@ -214,6 +214,23 @@ func init() {
 			name string
 			a    string
 		}{{"own", s.client.Address()}, {"empty", ""}, {"garbage", "xyz"}, {"key33", badKeyAddress(33)}, {"key31", badKeyAddress(31)}, {"key0", badKeyAddress(0)}}
+		// addresses that decode to very few bytes (shorter than, equal to and just above the checksum length),
+		// with and without the supported version byte in front
+		for n := 0; n <= 6; n++ {
+			for _, first := range []byte{0x00, 0x07} {
+				raw := make([]byte, n)
+				for i := range raw {
+					raw[i] = byte(i)
+				}
+				if n > 0 {
+					raw[0] = first
+				}
+				addrs = append(addrs, struct {
+					name string
+					a    string
+				}{fmt.Sprintf("decoded%d-first%02x", n, first), string(serializer.Base58Encode(raw))})
+			}
+		}
 
 		// ---- SignedHash RPCs: Reject, Waiting, Saved, Balance, TransactionsInDAG (notary), GetVertex (gossip), Webhooks
 		type shRPC struct {
@@ -244,6 +261,16 @@ func init() {
 							s.call(c, r.name, fmt.Sprintf("addr=%s data=%s hash=%s sig=%d", ad.name, d.name, h.name, sg), func() error { return r.f(m) })
 						}
 					}
+				}
+			}
+			// a digest that matches the data, so that verification gets as far as decoding the address
+			for _, ad := range addrs {
+				for _, data := range [][]byte{make([]byte, 32), []byte(ad.a), {}} {
+					d := sha256.Sum256(data)
+					m := roundTrip(&pb.SignedHash{Address: ad.a, Data: data, Hash: d[:], Signature: make([]byte, 64)}, &pb.SignedHash{})
+					s.flash.RemoveAddress(ad.a)
+					r := r
+					s.call(c, r.name, fmt.Sprintf("addr=%s matching-digest data=%d", ad.name, len(data)), func() error { return r.f(m) })
 				}
 			}
 			// correctly signed requests (pass verification, reach the code behind it)
